@@ -15,7 +15,9 @@ import (
 	"github.com/mgtv-tech/redis-GunYu/pkg/redis/client"
 	"github.com/mgtv-tech/redis-GunYu/syncer"
 
+	"verifsim/resp"
 	"verifsim/simredis"
+	"verifsim/simrt"
 )
 
 // C17 — resume bookkeeping maintenance never loses the live resume position. DESIGN.md §3 C17.
@@ -111,6 +113,12 @@ func (c *c17sim) setViolation(rule, sig, format string, a ...any) {
 }
 
 var errCrashed = errors.New("process is dead")
+
+// denyOOM: commands Redis refuses while it is over its memory limit (command flag "denyoom"), as far as the tool's
+// bookkeeping uses them.
+var denyOOM = map[string]bool{"set": true, "setnx": true, "setex": true, "psetex": true, "mset": true, "append": true, "incr": true, "incrby": true,
+	"hset": true, "hsetnx": true, "hmset": true, "hincrby": true, "zadd": true, "sadd": true, "rpush": true, "lpush": true, "xadd": true,
+	"restore": true, "copy": true, "eval": true, "evalsha": true}
 
 // runOp runs fn (real repository code talking to the double) until it returns; the target executes its
 // requests one by one. crashAfter >= 0: after that many requests every connection is severed and no new
@@ -607,6 +615,46 @@ func runC17(r *Run, stratum string) *Violation {
 			c.runOp(opName, op, k)
 			check(k, salt)
 			r.Evals++
+		}
+		// "a stop at any intermediate step" that the TARGET causes: from its k-th request on the target is out of memory
+		// (maxmemory, noeviction): commands that may grow the dataset are refused with -OOM, deletions and reads are still
+		// served - Redis's own rule. The operation stops where it notices (or goes on, if it does not look); whatever it
+		// leaves behind is an intermediate state like any other, judged by the same next start on a target that has room
+		// again. (On the unchanged tree every operation stops at the refused request: the state is the crash prefix k.)
+		if salt == 0 && !isGC {
+			for k := 0; k < n && c.viol == nil; k++ {
+				c.srv.RestoreDBs(initial)
+				r.W.SetSalt(salt)
+				c.between = concurrent
+				if concurrent != nil && len(extraServers) > 0 {
+					extraServers[0].Repl.ID, extraServers[0].Repl.ID2 = oldID, ""
+				}
+				from := c.srv.Stats.Requests + k
+				refused := 0
+				c.srv.Intercept = func(ss *simredis.Session, name string, args [][]byte) *resp.Value {
+					if c.srv.Stats.Requests > from && denyOOM[name] {
+						refused++
+						if ss.InMulti {
+							ss.QueueErr = true // refused at queueing time: the EXEC aborts (EXECABORT)
+						}
+						v := resp.Err("OOM command not allowed when used memory > 'maxmemory'.")
+						return &v
+					}
+					return nil
+				}
+				_, oerr := c.runOp(opName, op, -1)
+				c.srv.Intercept = nil
+				if refused == 0 {
+					break // no request from here on can be refused
+				}
+				r.W.Fault("target_out_of_memory")
+				r.Logf("target out of memory from request %d of %s on: %d refused, operation returned %v", k, opName, refused, oerr)
+				if oerr == nil {
+					simrt.Probe("c17_oom_not_noticed")
+				}
+				check(k, salt)
+				r.Evals++
+			}
 		}
 	}
 	r.NonTriv = before.ok || (isGC && liveIDs[oldID])
